@@ -59,3 +59,37 @@ def cashflowRows (cy L : Nat) (series : List Rat) : List (Nat × Rat) :=
   (List.range (cy + L)).map (fun i => (i + 1, series.getD i 0))
 
 end GeoVerif
+
+namespace GeoVerif
+
+/-- strip trailing zeros of the fraction part and a then-dangling point (what Python's `g` presentation does) -/
+def stripTrailingZeros (s : List Char) : List Char :=
+  if s.contains '.' then
+    let r := (s.reverse.dropWhile (· == '0'))
+    (match r with | '.' :: t => t | t => t).reverse
+  else s
+
+/-- the decimal exponent `e` with `10^e ≤ ax < 10^(e+1)` searched in `[-5, 15]` (`none` outside) -/
+def decExp (ax : Rat) : Option Int :=
+  ((List.range 21).map (fun (i : Nat) => (i : Int) - 5)).find? (fun e =>
+    let lo : Rat := if e ≥ 0 then (10 : Rat) ^ e.toNat else 1 / (10 : Rat) ^ (-e).toNat
+    decide (lo ≤ ax) && decide (ax < lo * 10))
+
+/-- Python `f'{x:.{p}g}'` in its fixed-notation range (`-4 ≤ exponent < p`); `none` when Python would switch to scientific notation -/
+def fmtG (p : Nat) (x : Rat) : Option (List Char) :=
+  if x = 0 then some ['0'] else
+  let ax := if x < 0 then -x else x
+  match decExp ax with
+  | none => none
+  | some e0 =>
+    -- rounding to p significant digits may carry into the next decade
+    let dec0 : Int := (p : Int) - 1 - e0
+    if dec0 < 0 then none else
+    let k0 := roundHalfEvenNat ax dec0.toNat
+    let e := if k0 ≥ 10 ^ p then e0 + 1 else e0
+    if e < -4 || e ≥ (p : Int) then none else
+    let dec : Int := (p : Int) - 1 - e
+    if dec < 0 then none else
+    some (stripTrailingZeros (renderFixed (decide (x < 0)) dec.toNat (roundHalfEvenNat ax dec.toNat)))
+
+end GeoVerif
